@@ -399,10 +399,12 @@ def run_scenario(sc, props, stop_at_first=True):
     return viol
 
 
-def search(props, seed, budget, seg_choices=(False, True), focus=None, max_steps=10):
+def search(props, seed, budget, seg_choices=(False, True), focus=None, max_steps=10, ignore=()):
+    import re
     rng = random.Random(seed)
     t0 = time.time()
     n = 0
+    known = []
     while time.time() - t0 < budget:
         n += 1
         seg = rng.choice(seg_choices)
@@ -431,10 +433,15 @@ def search(props, seed, budget, seg_choices=(False, True), focus=None, max_steps
         except Exception as e:  # a crash of the real code outside the modelled exceptions
             v = [(props[0], f"harness/real code crashed: {type(e).__name__}: {e}")]
         if v:
+            if ignore and all(any(re.search(pat, x[1]) for pat in ignore) for x in v):
+                # a recorded known finding: note it (once) and keep searching for anything else
+                if not known:
+                    known.append({"scenario": sc, "violations": [list(x) for x in v[:2]]})
+                continue
             sc2 = shrink(sc, props, v[0][0])
             v2 = run_scenario(sc2, props)
-            return {"found": True, "scenario": sc2, "violations": [list(x) for x in v2[:3]], "scenarios_tried": n}
-    return {"found": False, "scenarios_tried": n}
+            return {"found": True, "scenario": sc2, "violations": [list(x) for x in v2[:3]], "scenarios_tried": n, "known": known}
+    return {"found": False, "scenarios_tried": n, "known": known}
 
 
 def shrink(sc, props, prop):
@@ -462,6 +469,7 @@ def main():
     ap.add_argument("--replay")
     ap.add_argument("--noseg", action="store_true")
     ap.add_argument("--segonly", action="store_true")
+    ap.add_argument("--ignore", action="append", default=[])
     a = ap.parse_args()
     props = a.prop.split(",")
     if a.replay:
@@ -472,7 +480,7 @@ def main():
         return
     segs = (False,) if a.noseg else ((True,) if a.segonly else (False, True))
     focus = [f for f in a.focus.split(",") if f]
-    print(json.dumps(search(props, a.seed, a.budget, segs, focus or None), default=str))
+    print(json.dumps(search(props, a.seed, a.budget, segs, focus or None, ignore=tuple(a.ignore)), default=str))
 
 
 if __name__ == "__main__":
